@@ -32,6 +32,8 @@ func init() {
 			{ID: "C13.R11", Text: "events racing with the close cannot trip the fail-stop membership check: snapshot announcements are installed whenever the gate passes, also while the delivery switch is off (same rule as C06.R7)", Run: markerInstall},
 			{ID: "C13.R12", Text: "the final save stores every settled position: the dirty set is cleared only after, and only under err==nil of, the store call, and the save is attempted whenever the flag is up (same rules as C05.R3, C05.R4)", Run: func(c *Ctx, id string) { c05r3(c, id); c05r4(c, id) }},
 			{ID: "C13.R13", Text: "Close cannot hang on a parked event: the persistence wait is left ⇔ seq ≤ persistSeqNo ∨ closed, so throwing the delivery switch releases a handler that sits in the gate (and with it the connection's reader that the stream-close request needs) (same rule as C07.R2)", Run: c07r2},
+			{ID: "C13.R14", Text: "the close loops reach every observer and every position: Range over the wrapper visits all entries (same rule as C04.R9)", Run: wrapperFaithful},
+			{ID: "C13.R15", Text: "the close loops reach every observer and stream: every loop over a concurrent map runs to completion: the Range callback returns true on every path (frozen exception: markAbsentInstances stops at the error it returns)", Run: rangeComplete("stream.stream).Close", "stream.stream).closeAllStreams")},
 			{ID: "C13.R9", Text: "background waits are cancellable: the health checker blocks only in selects with a ctx.Done() case (same rule as C19.R2)", Run: c19r2},
 			{ID: "C13.R10", Text: "a cancel signal closes with closeWithCancel=true: the flag is raised in the branch of the wait that received the signal, before the close path runs, and is what Stream.Close receives", Run: c13r10},
 			{ID: "C13.R8", Text: "closeAllStreams closes every assigned vBucket: the serial branch iterates vbIDRange.Start..End inclusive, the parallel branch ranges over every tracked position", Run: closeAllRange},
